@@ -12,7 +12,7 @@
    follows by [check_none_of_safe]).  Where the statement is false of the
    faithful shape program the theorem is [..._refuted : run ... = Fails e s]
    with a concrete configuration. *)
-Require Import Arith List Bool String.
+Require Import Arith List Bool String Lia.
 Require Import BFL.C14_Model BFL.C14_Proofs.
 Import ListNotations.
 Open Scope nat_scope.
@@ -174,6 +174,21 @@ Theorem C14_EstimatesExtraction_safe w calls stat avg el ec pr n wn pw ln tr tc 
   run (case_extract w calls stat avg el ec pr n wn pw ln tr tc) = Safe.
 Proof. exact (case_extract_safe w calls stat avg el ec pr n wn pw ln tr tc). Qed.
 
+(* ---- estimate extraction as ONE object driven through ANY sequence of setMethod (all twelve methods) /
+        setMobileAverageWindowSize (grow, shrink, clamped, refused) / clear / extract (both overloads, any particle
+        count per call) operations.  The model carries the window, the stored estimates with their sizes and the
+        lengths of the three cached weight vectors (sm_weights_, wm_weights_, em_weights_); nothing is assumed about
+        the caches at any point of the sequence *)
+Theorem C14_EstimatesExtraction_sequences_safe el ec ops :
+  Forall (xop_valid el ec) ops -> run (case_extseq el ec ops) = Safe.
+Proof. exact (case_extseq_safe el ec ops). Qed.
+
+(* the weight vector a windowed call multiplies with has, after the call's own rebuild test, exactly one entry per
+   stored estimate — whatever length [c] the cache had from earlier calls with other windows / methods *)
+Theorem C14_EstimatesExtraction_weights_match_history avg el ec k c :
+  snd (x_avg_tail avg el ec k c c) = k.
+Proof. exact (x_avg_tail_len avg el ec k c). Qed.
+
 (* ---- non-vacuity: the premises hold on concrete non-trivial configurations, the programs are
         not empty, [Safe] is not implied by "nothing fails" ([Threw] is a different verdict), and the
         calculus does reject inputs outside the declared shapes *)
@@ -204,6 +219,23 @@ Example C14_calculus_rejects_mismatched_inputs :
   run (case_linsensor 2 2 4 4 [0; 4] 2 2 1 1 4 1) = Threw e_sls_ctor "component index < state size".
 Proof. repeat split; vm_compute; reflexivity. Qed.
 
+(* the operation sequence of the seeded change C14-r5 (emean x5, window 2, one wmean, emean again; 2 linear + 1 circular
+   numbers, particle counts changing between calls, the five-argument overload with the map family in between): the
+   premise holds, the program is not empty, the predicted return values / windows are the ones listed *)
+Definition c14_ops_example : list xop :=
+  [XMethod 0 3; XExtract false 3 2 2 0 0 0 0; XExtract false 3 2 2 0 0 0 0; XExtract false 3 5 5 0 0 0 0; XExtract false 3 2 2 0 0 0 0;
+   XExtract false 3 2 2 0 0 0 0; XWindow 2; XMethod 0 2; XExtract false 3 4 4 0 0 0 0; XMethod 0 3; XExtract false 3 1 1 0 0 0 0;
+   XMethod 2 1; XExtract false 3 2 2 0 0 0 0; XExtract true 3 2 2 5 2 2 5; XWindow 0; XClear; XMethod 1 3; XExtract true 3 6 6 4 6 6 4].
+Example C14_extseq_nonvacuous :
+  Forall (xop_valid 2 1) c14_ops_example /\
+  List.length (case_extseq 2 1 c14_ops_example) = 198 /\
+  obs_extseq 2 1 c14_ops_example = [1; 1;3; 1;3; 1;3; 1;3; 1;3; 1; 1; 1;3; 1; 1;3; 1; 0;3; 1;3; 0; 1; 1; 1;3] /\
+  win_extseq 2 1 c14_ops_example = [5; 5;5;5;5;5; 2; 2; 2; 2; 2; 2; 2; 2; 2; 2; 2; 2].
+Proof.
+  split; [|split; [|split]]; try (vm_compute; reflexivity).
+  unfold c14_ops_example. repeat constructor; discriminate.
+Qed.
+
 Print Assumptions C14_WhiteNoiseAcceleration_safe.
 Print Assumptions C14_SimulatedStateModel_safe.
 Print Assumptions C14_bufferData_exhaustion_reported.
@@ -233,3 +265,5 @@ Print Assumptions C14_gaussian_density_safe.
 Print Assumptions C14_gaussian_density_UVR_safe.
 Print Assumptions C14_gaussian_density_UVR_zero_block_size_refuted.
 Print Assumptions C14_EstimatesExtraction_safe.
+Print Assumptions C14_EstimatesExtraction_sequences_safe.
+Print Assumptions C14_EstimatesExtraction_weights_match_history.
